@@ -126,12 +126,13 @@ class TariffTranslator(py2coq.FnTranslator):
                 self.err(node, "Decimal of a non-number")
             return (s, "num")
         if f == "timedelta":
-            if self.domain != "Z" or node.args or len(node.keywords) != 1 or node.keywords[0].arg != "minutes":
-                self.err(node, "timedelta(...) other than timedelta(minutes=<int>) in an integer kernel")
+            if self.domain not in ("Z", "Q") or node.args or len(node.keywords) != 1 or node.keywords[0].arg != "minutes":
+                self.err(node, "timedelta(...) other than timedelta(minutes=<number>)")
             s, t = self.expr(node.keywords[0].value, env)
             if t != "num":
                 self.err(node, "timedelta of a non-number")
-            return ("(%d * %s)" % (US_PER_MIN, s), "num")
+            # microseconds; in the rational kernels the product is exact (the model floors it, see Model/Tariff.v)
+            return ("(%s * %s)" % (self.ops["lit"](fractions.Fraction(US_PER_MIN)), s), "num")
         return super().call(node, env)
 
 
@@ -166,6 +167,13 @@ Z_ANCHORS = [
 ]
 
 Q_ANCHORS = [
+    # the same instant expressions over the rationals (fractional simulation periods such as 2.5 minutes)
+    dict(name="Tariff_step_time_q", file=TOU, qual="TimeOfUseTariff.get_tariffs",
+         expr_path="body[1].value.elt.args[0]", types={"t": "num"}),
+    dict(name="Iface_price_start_q", file=IFACE, qual="Interface.get_prices",
+         expr_path="body[1].body[1].value", inline_props={"period": "Interface.period"}),
+    dict(name="Iface_demand_start_q", file=IFACE, qual="Interface.get_demand_charge",
+         expr_path="body[1].body[1].value", inline_props={"period": "Interface.period"}),
     # Decimal(hour) + Decimal(minute) / 60 + Decimal(second) / 3600
     dict(name="Tariff_target_hour", file=TOU, qual="TimeOfUseTariff.get_tariff",
          expr_path="body[2].value", types=DT),
